@@ -57,7 +57,13 @@ ASSUMPTIONS = [
     "QuarterSplineRing-type sketches may report core = None (taken as empty)",
     "written file: vertices printed with 8 decimals, matched within 1e-6 (1 + |coordinate|); a hex is located by the "
     "centre of its 8 vertices, its local axes by the mean of the 4 parallel edges (hexconv, OpenFOAM user guide)",
-    "get_slice(0|1, n) is judged only for cartesian (cb.Grid) bases, as its docstring restricts it",
+    "get_slice(0|1, n) is judged only for cartesian (cb.Grid) bases, as its docstring restricts it; valid indices are "
+    "0..n-1 and the Python negative indices -n..-1 (examples/stack/cube.py uses get_slice(0, -1))",
+    "chops placed through addresses use count= only (one distinct count per column / row / tier, or one uniform count "
+    "on round shapes), so the written counts depend on addressing and propagation alone; a write stopped by the "
+    "propagation step budget is C02's clause and is skipped (counted)",
+    "entities whose constructor raises for the generated (valid) parameters are counted as construct-rejected and not "
+    "judged; the REQUIRED counters make a run in which a whole class is rejected INCONCLUSIVE",
 ]
 
 STACKS = ["ExtrudedStack", "RevolvedStack", "TransformedStack"]
@@ -439,17 +445,18 @@ def run_stack(ctx, case, cb):
         for axis, count, pos in axes:
             for idx in list(range(count)) + list(range(-count, 0)):
                 want = sorted(c for c in lat.index if c[pos] == idx % count)
+                neg = ":negative-index" if idx < 0 else ""
                 try:
                     ops = list(entity.get_slice(axis, idx))
                 except Exception as err:  # noqa: BLE001
-                    ctx.violation(f"slice-raises:axis{axis}:{tag}:{type(err).__name__}",
+                    ctx.violation(f"slice-raises:axis{axis}:{tag}:{type(err).__name__}{neg}",
                                   f"{tag} nx={base.get('nx')} ny={base.get('ny')} tiers={nt}: get_slice({axis}, {idx}) raised {err!r}")
                     return
                 ctx.count(f"judged:slice:axis{axis}")
                 if idx < 0:
                     ctx.count("judged:slice:negative-index")
                 if len(set(_ids(ops))) != len(ops):
-                    ctx.violation(f"slice:axis{axis}:{tag}:repeats", f"{tag}: get_slice({axis}, {idx}) returns {len(ops)} entries, "
+                    ctx.violation(f"slice:axis{axis}:{tag}:repeats{neg}", f"{tag}: get_slice({axis}, {idx}) returns {len(ops)} entries, "
                                   f"{len(set(_ids(ops)))} distinct")
                     return
                 got = []
@@ -460,7 +467,7 @@ def run_stack(ctx, case, cb):
                         got.append(lat.nearest(lat.bc, np.asarray(op.bottom_face.point_array, dtype=float).mean(axis=0)))
                 if sorted(got) != want:
                     ctx.violation(
-                        f"slice:axis{axis}:{tag}:wrong-set",
+                        f"slice:axis{axis}:{tag}:wrong-set{neg}",
                         f"{tag} nx={base.get('nx')} ny={base.get('ny')} tiers={nt}: get_slice({axis}, {idx}) returned the operations "
                         f"located at (tier,row,col) {sorted(got)[:12]}, expected exactly those with index {idx} along axis {axis}: {want[:12]}")
                     return
